@@ -636,3 +636,440 @@ def c11(ctx, tr):
 
 LP_ORACLES = {'C01': c01, 'C02': c02, 'C03': c03, 'C04': c04, 'C05': c05,
               'C11': c11}
+
+
+# ---------------------------------------------------------------------------
+# helpers shared by C14 / C16 / C18
+# ---------------------------------------------------------------------------
+def rounds_per_criterion(I, crit):
+    """Number of back-end solves each criterion needs (README semantics:
+    generous from max rank down to the cut-off, greedy from 1 up to it)."""
+    out = []
+    for name, extra in crit:
+        if name == 'gen':
+            c = extra[0] if extra else 1
+            out.append(len(range(I.maxrank, max(0, c - 1), -1)))
+        elif name == 'gre':
+            c = extra[0] if extra else I.maxrank
+            out.append(len(range(1, min(c, I.maxrank) + 1)))
+        else:
+            out.append(1)
+    return out
+
+
+def criterion_of_round(I, crit, k):
+    """Index of the criterion that contains round k (1-based), or None."""
+    if not crit:
+        return None
+    acc = 0
+    for j, n in enumerate(rounds_per_criterion(I, crit)):
+        acc += n
+        if k <= acc:
+            return j
+    return None
+
+
+def getter_texts(tr, solve_index=None):
+    out = []
+    for c in tr.calls:
+        if c['op'] in ('get_results', 'get_results_short',
+                       'get_results_long') and c['ok']:
+            if solve_index is None or c.get('solve_index') == solve_index:
+                out.append((c['op'], c['text']))
+    return out
+
+
+# ---------------------------------------------------------------------------
+# C14
+# ---------------------------------------------------------------------------
+def c14(ctx, tr):
+    res = {'violations': [], 'probes': {}, 'nontrivial': False,
+           'skipped': None, 'extra': {}}
+    sc = ctx.sc
+    limit = None
+    for op in sc['ops']:
+        if op[0] == 'solve':
+            limit = (op[1] or {}).get('timeLimit')
+            break
+    rounds = [r for r in tr.rounds if r['solve_index'] == 1]
+    B = None
+    for r in rounds:
+        if r.get('fault') is not None or r.get('status') != 'Optimal':
+            B = r
+            break
+    plan = sc['backend'].get('faults') or []
+    res['probes']['faults-in-plan:%d' % len(plan)] = 1
+    if B is not None:
+        res['nontrivial'] = True
+        res['probes']['cut-short:' + (B.get('fault') or
+                                      'genuine-' + str(B.get('status')))] = 1
+        res['probes']['cut-at-round:%d' % min(B['round'], 9)] = 1
+        if len(rounds) > 1 and B['round'] > 1:
+            res['probes']['cut-after-first-round'] = 1
+    elif plan:
+        res['probes']['fault-not-reached'] = 1
+    exc = first_exception(tr)
+    if exc is not None:
+        e = exc['exc']
+        if e['type'] == 'RunTimeout':
+            res['skipped'] = 'harness-timeout'
+            return res
+        res['violations'].append(
+            ('exception-under-fault:' + e['type'], e['site'] or exc['op'],
+             {'msg': e['msg'], 'op': exc['op'], 'tb': e['tb']}))
+        return res
+    if not tr.t_solve_return:
+        res['skipped'] = 'no-solve'
+        return res
+    total = tr.t_solve_return[0] - tr.t_entry
+    if limit is not None:
+        res['probes']['time-limit-set'] = 1
+        if abs(total - limit) < max(1.0, 0.01 * limit):
+            res['skipped'] = 'knife-edge'
+            return res
+        res['probes']['total>limit' if total > limit else
+                      'total<limit'] = 1
+    site = 'no-criteria'
+    if B is not None and ctx.crit:
+        j = criterion_of_round(ctx.I, ctx.crit, B['round'])
+        site = ctx.crit[j][0] if j is not None else 'beyond-expected-rounds'
+    for op, text in getter_texts(tr, 1):
+        r = parse_results(text)
+        if B is not None:
+            if r['present']:
+                res['violations'].append(
+                    ('matching-after-cutshort', site,
+                     {'op': op, 'shown': r['present'],
+                      'first_nonoptimal_round': B['round'],
+                      'fault': B.get('fault'), 'status': B.get('status'),
+                      'history': [(x['round'], x.get('fault'),
+                                   x.get('status')) for x in rounds]}))
+                continue
+            expect_timeout = limit is not None and (
+                total > limit or B.get('status') == 'Not Solved')
+        else:
+            expect_timeout = limit is not None and total > limit
+            if expect_timeout and r['present']:
+                res['violations'].append(
+                    ('matching-after-timeout', site,
+                     {'op': op, 'shown': r['present'], 'total': total,
+                      'limit': limit}))
+                continue
+        if expect_timeout:
+            ok = r['timeout'] is not None
+            try:
+                ok = ok and float(r['timeout']) == float(limit)
+            except ValueError:
+                ok = False
+            if not ok:
+                res['violations'].append(
+                    ('timeout-not-shown', site,
+                     {'op': op, 'total': total, 'limit': limit,
+                      'status_line': r['status'],
+                      'fault': B and B.get('fault'),
+                      'B_status': B and B.get('status')}))
+        else:
+            want = B.get('status') if B is not None else 'Optimal'
+            if r['timeout'] is not None or r['status'] != want:
+                res['violations'].append(
+                    ('wrong-status-shown', site,
+                     {'op': op, 'shown_status': r['status'],
+                      'shown_timeout': r['timeout'], 'expected': want,
+                      'total': total, 'limit': limit,
+                      'history': [(x['round'], x.get('fault'),
+                                   x.get('status')) for x in rounds]}))
+    return res
+
+
+# ---------------------------------------------------------------------------
+# C16
+# ---------------------------------------------------------------------------
+def c16(ctx, tr):
+    """ctx may be None for refusal scenarios (no reference needed)."""
+    raise NotImplementedError
+
+
+def c16_order(ctx, tr):
+    res = {'violations': [], 'probes': {}, 'nontrivial': False,
+           'skipped': None}
+    sc = ctx.sc
+    exc = first_exception(tr)
+    if exc is not None:
+        e = exc['exc']
+        res['violations'].append(
+            ('valid-options-rejected' if exc['op'] == 'construct'
+             else 'exception:' + e['type'],
+             e['site'] or exc['op'], {'msg': e['msg'], 'code': e['code'],
+                                      'op': exc['op']}))
+        return res
+    crit = ctx.crit
+    names = [n for n, _ in crit]
+    raw = sc['opts'].get('criteria', [])
+    res['nontrivial'] = len(crit) >= 2 and \
+        [c['name'] for c in raw] != names
+    res['probes']['gapped'] = int(sorted(c['pos'] for c in raw) !=
+                                  list(range(1, len(raw) + 1)))
+    res['probes']['flags-out-of-order'] = int(res['nontrivial'])
+    res['probes']['ncrit:%d' % len(crit)] = 1
+    # (1) Options_parser.optimisation_options
+    if isinstance(tr.opt_view, list):
+        got = [(n, e) for n, e in tr.opt_view]
+        want = [(ENUM_NAME[n], list(e)) for n, e in crit]
+        if got != want:
+            res['violations'].append(
+                ('optimisation_options-order', 'options_parser',
+                 {'got': got, 'want': want}))
+    # (2) reported lines
+    rounds = [r for r in tr.rounds if r['solve_index'] == 1]
+    B = None
+    for r in rounds:
+        if r.get('fault') is not None or r.get('status') != 'Optimal':
+            B = r
+            break
+    if B is None:
+        want_names = names
+    else:
+        j = criterion_of_round(ctx.I, crit, B['round'])
+        want_names = names[:j + 1] if j is not None else names
+        res['probes']['prefix-under-nonoptimal'] = 1
+        if B.get('fault'):
+            res['probes']['prefix-under-injected-fault'] = 1
+    for op, text in getter_texts(tr, 1):
+        r = parse_results(text)
+        got = [classify_opt_line(l) for l in r['opt_lines']]
+        if None in got:
+            res['skipped'] = 'unclassifiable-optimisation-line'
+            continue
+        if got != want_names:
+            res['violations'].append(
+                ('reported-order', 'results',
+                 {'op': op, 'got': got, 'want': want_names,
+                  'flag_order': [c['name'] for c in raw]}))
+        # extras stay with their criterion: cut-off shown in its line
+        for l, (n, e) in zip(r['opt_lines'], crit):
+            if n in ('gen', 'gre') and e:
+                nums = [int(x) for x in re.findall(r'\d+', l)]
+                if e[0] not in nums:
+                    res['violations'].append(
+                        ('cutoff-not-with-criterion', n,
+                         {'line': l, 'cutoff': e[0]}))
+    # (3) extras take effect with their own criterion: lexicographic optimum
+    if B is None and ctx.F:
+        kind, r = outcome(tr)
+        if kind == 'optimal' and rm.acceptable(ctx.I, r['matching']):
+            kv = ctx.W.key_vector(r['matching'], crit)
+            if kv != ctx.bests:
+                res['violations'].append(
+                    ('not-optimal-in-position-order', 'results',
+                     {'matching': r['matching'], 'values': kv,
+                      'best': ctx.bests, 'order': names}))
+    return res
+
+
+def c16_refuse(sc, tr):
+    res = {'violations': [], 'probes': {}, 'nontrivial': True,
+           'skipped': None}
+    why = sc['refuse']
+    res['probes']['refuse:' + why] = 1
+    if sc.get('no_file'):
+        res['probes']['refuse-with-missing-file'] = 1
+    c = tr.calls[0] if tr.calls else None
+    if c is None or c['op'] != 'construct':
+        res['skipped'] = 'no-construct'
+        return res
+    opened = [e for e in tr.spy if e[1] == sc.get('file_name', 'inst.txt')]
+    if c['ok']:
+        res['violations'].append(
+            ('invalid-options-accepted', why,
+             {'argv': sc['opts'].get('raw_argv')}))
+        return res
+    e = c['exc']
+    if e['type'] != 'SystemExit' or e['code'] != 2:
+        res['violations'].append(
+            ('refusal-not-usage-error', why,
+             {'type': e['type'], 'code': e['code'], 'msg': e['msg'],
+              'site': e['site']}))
+    if opened:
+        res['violations'].append(
+            ('instance-read-before-refusal', why, {'spy': opened}))
+    if tr.rounds:
+        res['violations'].append(
+            ('solved-before-refusal', why, {'rounds': len(tr.rounds)}))
+    return res
+
+
+# ---------------------------------------------------------------------------
+# C18
+# ---------------------------------------------------------------------------
+def _bf_lines(text):
+    return [l for l in text.split('\n')
+            if l.startswith('optimal_') or l.strip() == 'Infeasible']
+
+
+def c18(ctx, tr):
+    res = {'violations': [], 'probes': {}, 'nontrivial': False,
+           'skipped': None}
+    sc = ctx.sc
+    bf = bool(sc['opts'].get('bf'))
+    exc = first_exception(tr)
+    n_solves = sum(1 for c in tr.calls if c['op'] == 'solve')
+    res['probes']['solves:%d' % min(n_solves, 4)] = 1
+    res['probes']['bf' if bf else 'lp'] = 1
+    if exc is not None:
+        e = exc['exc']
+        if e['type'] == 'RunTimeout':
+            res['skipped'] = 'harness-timeout'
+            return res
+        res['violations'].append(
+            ('exception:' + e['type'], e['site'] or exc['op'],
+             {'msg': e['msg'], 'op': exc['op'],
+              'history': [c['op'] for c in tr.calls], 'tb': e['tb']}))
+        return res
+    # getters idempotent inside an epoch
+    first = {}
+    repeated = 0
+    for c in tr.calls:
+        if c['op'] in ('get_results', 'get_results_short', 'get_results_long',
+                       'get_debug'):
+            k = (c['solve_index'], c['op'])
+            if k in first:
+                repeated += 1
+                if first[k] != c['text']:
+                    res['violations'].append(
+                        ('getter-not-idempotent', c['op'],
+                         {'epoch': c['solve_index'],
+                          'history': [x['op'] for x in tr.calls]}))
+            else:
+                first[k] = c['text']
+    # get_results is get_results_short in LP mode
+    res['probes']['repeated-getter-calls'] = int(repeated > 0)
+    # every epoch: same status, same criterion values, valid matching
+    epochs = sorted(set(c['solve_index'] for c in tr.calls
+                        if c['op'] != 'construct' and c.get('solve_index')))
+    ref_status = None
+    ref_bf = None
+    distinct_matchings = set()
+    for ep in epochs:
+        texts = [(op, t) for (e2, op), t in first.items()
+                 if e2 == ep and op != 'get_debug']
+        for op, text in texts:
+            if bf:
+                lines = _bf_lines(text)
+                if ref_bf is None:
+                    ref_bf = {}
+                if op not in ref_bf:
+                    ref_bf[op] = lines
+                elif lines != ref_bf[op]:
+                    res['violations'].append(
+                        ('resolve-changes-bruteforce-result', op,
+                         {'epoch': ep, 'first': ref_bf[op], 'now': lines}))
+                continue
+            r = parse_results(text)
+            st = r['status'] if r['timeout'] is None else 'Timeout'
+            if ref_status is None:
+                ref_status = st
+            elif st != ref_status:
+                res['violations'].append(
+                    ('resolve-changes-status', op,
+                     {'epoch': ep, 'first': ref_status, 'now': st}))
+            want = 'Optimal' if ctx.F else 'Infeasible'
+            if st != want:
+                if ep == 1:
+                    # the first solve is C02's business, not a history effect
+                    res['skipped'] = 'c02-class:first-solve-status'
+                    return res
+                continue        # already reported as resolve-changes-status
+            if st != 'Optimal':
+                continue
+            M = r['matching']
+            ok_M = M is not None and rm.acceptable(ctx.I, M) and \
+                M in ctx.Fset
+            kv = ctx.W.key_vector(M, ctx.crit) if ok_M else None
+            if ep == 1 and (not ok_M or kv != ctx.bests):
+                res['skipped'] = 'c01/c03-class:first-solve-result'
+                return res
+            if not ok_M:
+                res['violations'].append(
+                    ('resolve-invalid-matching', op,
+                     {'epoch': ep, 'matching': M}))
+                continue
+            distinct_matchings.add(M)
+            if kv != ctx.bests:
+                res['violations'].append(
+                    ('resolve-changes-criterion-value', op,
+                     {'epoch': ep, 'values': kv, 'best': ctx.bests}))
+    res['probes']['different-matchings-across-solves'] = int(
+        len(distinct_matchings) > 1)
+    res['nontrivial'] = n_solves >= 2 or repeated > 0
+    return res
+
+
+# ---------------------------------------------------------------------------
+# C06
+# ---------------------------------------------------------------------------
+def c06(ctx, tr):
+    res = {'violations': [], 'probes': {}, 'nontrivial': False,
+           'skipped': None, 'extra': {}}
+    I = ctx.I
+    exc = first_exception(tr)
+    byz = list(ctx.sc.get('byz') or [])
+    if exc is not None:
+        e = exc['exc']
+        if e['type'] == 'RunTimeout':
+            res['skipped'] = 'harness-timeout'
+            return res
+        ep = exc.get('solve_index', 0)
+        M = tuple(byz[ep - 1]) if byz and 0 < ep <= len(byz) else None
+        res['violations'].append(
+            ('exception:' + e['type'], e['site'] or exc['op'],
+             {'msg': e['msg'], 'op': exc['op'], 'assignment': M,
+              'tb': e['tb']}))
+        return res
+    n_pairs = 0
+    n_unstable = 0
+    for c in tr.calls:
+        if c['op'] not in ('get_results', 'get_results_short',
+                           'get_results_long'):
+            continue
+        r = parse_results(c['text'])
+        if r['status'] != 'Optimal' or r['matching'] is None:
+            continue        # genuinely infeasible fault-free run
+        M = r['matching']
+        if byz:
+            want_M = tuple(byz[c['solve_index'] - 1])
+            if tuple(M) != want_M:
+                raise_harness('byzantine assignment %r was printed as %r'
+                              % (want_M, M))
+        if not rm.acceptable(I, M):
+            continue
+        bp = rm.blocking_pairs(I, M)
+        n_pairs += 1
+        verdict = 'True' if not bp else 'False'
+        if bp:
+            n_unstable += 1
+            res['probes']['blocking:' + bp[0][2]] = \
+                res['probes'].get('blocking:' + bp[0][2], 0) + 1
+        pc, lc = rm.counts(I, M)
+        if any(lc[k] == 0 and I.luq[k] == 0 for k in range(I.n3)) or \
+                any(pc[j] == 0 and I.puq[j] == 0 for j in range(I.n2)):
+            res['probes']['full-and-empty-agent'] = 1
+        got = r.get('stability_correct')
+        if got != verdict:
+            res['violations'].append(
+                ('stability_correct-wrong',
+                 'says-%s-is-%s' % (got, verdict) + (
+                     ':' + bp[0][2] if bp else ''),
+                 {'matching': M, 'printed': got, 'reference': verdict,
+                  'blocking_pairs': bp[:3], 'byzantine': bool(byz)}))
+    res['nontrivial'] = n_unstable > 0
+    res['extra'] = {'instance_assignment_pairs': n_pairs,
+                    'unstable_pairs': n_unstable}
+    res['probes']['byzantine' if byz else 'fault-free-stab'] = 1
+    return res
+
+
+def raise_harness(msg):
+    from world import HarnessError
+    raise HarnessError(msg)
+
+LP_ORACLES.update({'C14': c14, 'C18': c18, 'C06': c06})
